@@ -356,6 +356,7 @@ where
 //@ item src/graph_impl/mod.rs | impl<N, E, Ty, Ix> Graph<N, E, Ty, Ix> where Ty: EdgeType, Ix: IndexType | fn change_edge_links
     /// For edge `e` with endpoints `edge_node`, replace links to it,
     /// with links to `edge_next`.
+    /*+*/#[verifier::spinoff_prover]/*-*/
     fn change_edge_links(
         &mut self,
         edge_node: [NodeIndex<Ix>; 2],
@@ -608,6 +609,7 @@ where
 //@ end
 
 //@ item src/graph_impl/mod.rs | impl<N, E, Ty, Ix> Graph<N, E, Ty, Ix> where Ty: EdgeType, Ix: IndexType | fn remove_edge
+    /*+*/#[verifier::spinoff_prover]/*-*/
     pub fn remove_edge(&mut self, e: EdgeIndex<Ix>) -> (r: Option<E>)
         /*+*/requires old(self).wf()
         ensures
